@@ -384,6 +384,8 @@ func (g *gen) pred(bs []bnd) (node, bool) {
 // a strict non-empty subset (the last usable one otherwise).
 func (g *gen) aimed(bs []bnd, try func(p *node) (string, error)) *node {
 	var fallback *node
+	rank := map[string]int{"none": 1, "all": 2}
+	best := 0
 	for i := 0; i < 4; i++ {
 		p, ok := g.pred(bs)
 		if !ok {
@@ -397,7 +399,9 @@ func (g *gen) aimed(bs []bnd, try func(p *node) (string, error)) *node {
 		if sub == "strict" {
 			return &pp
 		}
-		fallback = &pp
+		if rank[sub] > best {
+			fallback, best = &pp, rank[sub]
+		}
 		if g.pct("takeany", 15) {
 			break
 		}
@@ -592,6 +596,7 @@ func (g *gen) joinSkeleton(kind, L, R string) opT {
 }
 
 func (g *gen) genJoin(kind, L, R string) (opT, bool) {
+	var fallback *opT
 	for attempt := 0; attempt < 4; attempt++ {
 		op := g.joinSkeleton(kind, L, R)
 		bs := []bnd{{L, L}, {R, R}}
@@ -649,9 +654,27 @@ func (g *gen) genJoin(kind, L, R string) (opT, bool) {
 				}
 			}
 		}
-		if _, err := g.simulate(op); err == nil {
-			return op, true
+		ef, err := g.simulate(op)
+		if err != nil {
+			continue
 		}
+		if ef.subset == "none" {
+			// an empty match is always inside the model: prefer the form without the extra predicate, or another draw
+			o2 := op
+			o2.Where = base
+			if ef2, err2 := g.simulate(o2); err2 == nil && ef2.subset != "none" {
+				return o2, true
+			}
+			if fallback == nil {
+				f := op
+				fallback = &f
+			}
+			continue
+		}
+		return op, true
+	}
+	if fallback != nil && g.pct("acceptnone", 40) {
+		return *fallback, true
 	}
 	return opT{}, false
 }
@@ -790,10 +813,13 @@ func (g *gen) genRepsel(T, O string) (opT, bool) {
 			if ef.appended > room || (avoid("replace", avoidReplaceUnmatchedOrder) && ef.appended > 1) {
 				return "", outside("too many rows without a match")
 			}
-			if ef.total == 0 {
+			switch {
+			case ef.total == 0:
 				return "none", nil
+			case ef.appended > 0 && ef.total > ef.appended:
+				return "strict", nil
 			}
-			return "strict", nil
+			return "all", nil
 		}
 		if _, err := try(nil); err != nil || g.pct("where", 50) {
 			op.Where = g.aimed([]bnd{{"", O}}, try)
@@ -1487,7 +1513,10 @@ func checkHist(c histCase) (fw.Outcome, *fw.Violation) {
 			continue
 		}
 		ef := st.ef
-		class("op:" + st.op.K + ":" + c.naming().kind[st.op.T])
+		class("op:" + st.op.K)
+		if c.naming().kind[st.op.T] == "stdin" {
+			class("on_stdin:" + st.op.K)
+		}
 		if ef.changed {
 			changing++
 			kinds[st.op.K] = true
@@ -1558,9 +1587,9 @@ func checkHist(c histCase) (fw.Outcome, *fw.Violation) {
 			}
 		}
 		if st.op.K == "updjoin" || st.op.K == "deljoin" {
-			class(st.op.K + ":" + st.op.Join)
+			class("join:" + st.op.Join)
 			if len(st.op.Targets) > 1 {
-				class(st.op.K + ":two_targets")
+				class("join:two_targets")
 			}
 		}
 		toks = append(toks, tok)
